@@ -17,7 +17,7 @@ int_t nondet_int_t(void);
 extern void superlu_free(void *);
 extern void at_plus_a(const int_t, const int_t, int_t *, int_t *, int_t *, int_t **, int_t **);
 void h_at_plus_a(void) {
-  int_t i, j, p, cnt, total;
+  int_t i, j, p, q, total;
   _Bool M[D][D], B[D][D];
   int_t sentinel;
   in_n = CAP;
@@ -32,8 +32,11 @@ void h_at_plus_a(void) {
   __CPROVER_assume(0 <= in_colptr[0]);
   for (j = 0; j < CAP; j++) __CPROVER_assume(in_colptr[j] <= in_colptr[j + 1]);
   __CPROVER_assume(in_colptr[CAP] <= in_nz);
-#if STRICT   /* the shape every NC matrix of the library has: colptr[0] == 0, colptr[n] == nnz */
+#if STRICT   /* the shape every NC matrix of the library has: colptr[0] == 0, colptr[n] == nnz; STRICT == 2: nz == NZ too */
   __CPROVER_assume(in_colptr[0] == 0 && in_colptr[CAP] == in_nz);
+#endif
+#if STRICT == 2
+  __CPROVER_assume(in_nz == NZ);
 #endif
   for (p = 0; p < NZ; p++) __CPROVER_assume(0 <= in_rowind[p] && in_rowind[p] < D);
   for (j = 0; j <= CAP; j++) g_colptr0[j] = in_colptr[j];
@@ -54,10 +57,12 @@ void h_at_plus_a(void) {
   if (in_bnz == 0) __CPROVER_assert(in_b_rowind == g_b_rowind0, "*b_rowind is not written when bnz == 0");
   for (p = 0; p < BZ; p++) if (p < in_bnz) __CPROVER_assert(0 <= in_b_rowind[p] && in_b_rowind[p] < CAP, "b_rowind entries are vertices");
   for (j = 0; j < CAP; j++) for (i = 0; i < CAP; i++) {
-    cnt = 0;
-    for (p = 0; p < BZ; p++) if (in_b_colptr[j] <= p && p < in_b_colptr[j + 1] && p < in_bnz && in_b_rowind[p] == i) cnt++;
-    __CPROVER_assert(cnt == (B[i][j] ? 1 : 0), "column j of the result holds i exactly once iff i != j and (A(i,j) or A(j,i)) is stored");
+    _Bool mem = 0;
+    for (p = 0; p < BZ; p++) if (in_b_colptr[j] <= p && p < in_b_colptr[j + 1] && p < in_bnz && in_b_rowind[p] == i) mem = 1;
+    __CPROVER_assert(mem == B[i][j], "column j of the result holds i iff i != j and (A(i,j) or A(j,i)) is stored");
   }
+  for (j = 0; j < CAP; j++) for (p = 0; p < BZ; p++) for (q = p + 1; q < BZ; q++)
+    if (in_b_colptr[j] <= p && q < in_b_colptr[j + 1] && q < in_bnz) __CPROVER_assert(in_b_rowind[p] != in_b_rowind[q], "no repeated subscript in a column of the result");
   for (j = 0; j <= CAP; j++) __CPROVER_assert(g_colptr0[j] == in_colptr[j], "colptr of A not written");
   for (p = 0; p < NZ; p++) __CPROVER_assert(g_rowind0[p] == in_rowind[p], "rowind of A not written");
   __CPROVER_assert(g_n_malloc - g_n_free == (in_bnz != 0 ? 2 : 1), "only the results stay allocated (3 temporaries released)");
